@@ -31,7 +31,7 @@ ASSUMPTIONS = ["a failure is an OSError raised by the k-th chunk (de)compression
                "unflushed buffer is not modelled",
                "after a failed in-place decompression the harness deletes the partial .bin before continuing (the property "
                "only forbids losing the source there)"]
-BUDGET = {"quick": 800, "thorough": 8000}
+BUDGET = {"quick": 800, "thorough": 20000}
 SHRINK = {"quick": False, "thorough": True}
 
 
